@@ -43,7 +43,7 @@ TResult == /\ Ev.e = "Result"
               ELSE /\ Clause("decoder-still-usable", ~probe.set \/ probe.res = ResProj)
                    /\ probe' = IF probe.set THEN probe ELSE [set |-> TRUE, res |-> ResProj]
            /\ UNCHANGED exp
-TOther == Ev.e \in {"Header", "Use", "Align", "Lattice", "NBest", "Json", "Cmn"} /\ UNCHANGED <<exp, probe>>
+TOther == Ev.e \in {"Header", "Use", "Align", "Lattice", "NBest", "Json", "Cmn", "SynHist"} /\ UNCHANGED <<exp, probe>>
 
 TNext == /\ l <= Len(JTrace)
          /\ (TMark \/ TApi \/ TResult \/ TOther)
